@@ -1300,6 +1300,8 @@ class Evaluator:
                 return False      # a parameter's default value is never the `empty` sentinel
         if isinstance(a, ClassV) or isinstance(b, ClassV):
             return False
+        if (isinstance(a, OpaqueV) and a.what == "object") or (isinstance(b, OpaqueV) and b.what == "object"):
+            return a is b            # a sentinel made by object() is identical to itself and to nothing else
         if isinstance(a, StrV) and isinstance(b, StrV):
             if a.s != b.s:
                 return False
